@@ -869,6 +869,13 @@ class Lowerer:
             ks = kids(n)
             p = self.rv(ks[0])
             return ('pidx', self.ntype(n), p, self.rv(ks[1]))
+        if k == 'InitListExpr' and len(kids(n)) == 1:
+            ch = kids(n)[0]
+            if ch.get('valueCategory') in ('lvalue', 'xvalue'):
+                return self.lv(ch)
+            t = self.ntype(n)
+            tv = self.tmp(t)
+            return self.deref(('seq', ('ptr', t), [('assign', tv, self.rv(ch))], ('addr', ('ptr', t), tv)))
         if k == 'ConditionalOperator' and cat == 'lvalue':
             ks = kids(n)
             t = self.ntype(n)
